@@ -412,6 +412,7 @@ def run(ctx):
                       "harness/translate_examples.py (ast -> Gallina printer for the example builders mirp_g1.get_mirp and "
                       "RandomMIRP.get_random_mirp as logs of the calls they make on their MIRP object; drawn values are oracle "
                       "parameters) and the meaning given to its combinators in coq/theories/PyExamples.v")
+    from props import pysem; pysem.run(ctx, pysem.GROUPS_FOR.get(ctx.pid, ()))
     TE.crosscheck(ctx, ex, recorded_calls)       # generated G1 call list at 3 horizons == the calls of the real get_mirp
     rng = ctx.rng
     n_canon = 140 if ctx.quick else 2100
